@@ -231,13 +231,25 @@ theorem allowsAny_self (c : RC) (hc : c.WF) (hne : c.NE) : RC.allowsAny c c = .o
 
 end RC
 
+/-- the members are listed from low to high, each strictly below the later ones -/
+def SortedRC (l : List RC) : Prop :=
+  l.Pairwise (fun x y => x.view.isStrictlyLower y.view = true)
+
+/-- `x` strictly below `y` and not adjacent to it -/
+def Sep (x y : RC) : Prop := x.view.isStrictlyLower y.view = true ∧ x.view.isAdjacentTo y.view = false
+
+/-- consecutive members are separated (list from low to high) -/
+def ConsecSep : List RC → Prop
+  | [] => True
+  | [_] => True
+  | x :: y :: l => Sep x y ∧ ConsecSep (y :: l)
+
 /-- the invariant of constraints: members well-formed and inhabited; the members of a union are at least
-two, sorted and separated (each strictly below the next and not adjacent to it) — what `VersionUnion.of`
-establishes -/
+two, sorted (each strictly below all later ones) and consecutive ones are not adjacent — what
+`VersionUnion.of` establishes -/
 def VC.WF : VC → Prop
   | .empty => True
   | .single c => c.WF ∧ c.NE
-  | .union rs => 2 ≤ rs.length ∧ (∀ c ∈ rs, c.WF ∧ c.NE) ∧
-      rs.Pairwise (fun x y => x.view.isStrictlyLower y.view = true ∧ x.view.isAdjacentTo y.view = false)
+  | .union rs => 2 ≤ rs.length ∧ (∀ c ∈ rs, c.WF ∧ c.NE) ∧ SortedRC rs ∧ ConsecSep rs
 
 end Poetry
